@@ -16,8 +16,9 @@ export CARGO_TARGET_DIR="$W/.base-target"
 mkdir -p "$W/rarena-allocator/tests"; cp "$D/demo.rs" "$W/rarena-allocator/tests/seed_demo.rs"
 # DEMO_MIRI=1: the demonstration only fails under miri (weakened orderings are invisible on x86-64)
 if [ -n "${DEMO_MIRI:-}" ]; then
-  DEMO_CMD="MIRIFLAGS='-Zmiri-disable-weak-memory-emulation -Zmiri-address-reuse-cross-thread-rate=0' cargo +nightly miri test -p rarena-allocator --test seed_demo --offline"
-  demo() { (cd "$W" && MIRIFLAGS="-Zmiri-disable-weak-memory-emulation -Zmiri-address-reuse-cross-thread-rate=0" timeout 1200 cargo +nightly miri test -p rarena-allocator --test seed_demo --offline 2>&1 | grep -E "^test result|panicked|error(\[|:)|Undefined Behavior" | head -5); }
+  MF="${DEMO_MIRIFLAGS--Zmiri-disable-weak-memory-emulation -Zmiri-address-reuse-cross-thread-rate=0}"
+  DEMO_CMD="MIRIFLAGS='$MF' cargo +nightly miri test -p rarena-allocator --test seed_demo --offline"
+  demo() { (cd "$W" && MIRIFLAGS="$MF" timeout 1200 cargo +nightly miri test -p rarena-allocator --test seed_demo --offline 2>&1 | grep -E "^test result|panicked|error(\[|:)|Undefined Behavior" | head -5); }
 else
   DEMO_CMD="cargo test -p rarena-allocator --features ${DEMO_FEATURES:-memmap} --test seed_demo --offline"
   demo() { (cd "$W" && timeout 600 cargo test -p rarena-allocator --features ${DEMO_FEATURES:-memmap} --test seed_demo --offline 2>&1 | grep -E "^test result|panicked|error(\[|:)" | head -5); }
